@@ -349,7 +349,17 @@ fn run_thread(t: usize, sh: StdArc<Shared>, o: StdArc<Objs>, owned: Vec<(usize, 
         th.arcs[x].push(a);
     }
     let ops = &sh.prog.threads[t];
+    let mut skip_next = false;
     for (i, op) in ops.iter().enumerate() {
+        if skip_next {
+            skip_next = false;
+            continue;
+        }
+        if let Op::SkipNextUnless { v } = op {
+            skip_next = th.last != *v as i64;
+            sh.event(t, i, None);
+            continue;
+        }
         let r = th.exec(op);
         // loom may have run other threads inside the call: restore our index
         CUR_THREAD.with(|c| *c.borrow_mut() = t);
@@ -537,8 +547,11 @@ impl<'a> Th<'a> {
                 None
             }
             Join { t } => {
-                let h = lock(&o.joins[t as usize]).take().expect("Join without handle");
-                h.join().unwrap();
+                // (a second join of the same thread is a no-op: the handle is gone)
+                let h = lock(&o.joins[t as usize]).take();
+                if let Some(h) = h {
+                    h.join().unwrap();
+                }
                 None
             }
             Yield => {
@@ -747,6 +760,7 @@ impl<'a> Th<'a> {
                 p.with_mut(|_| panic!("injected failure t{} (inside Atomic::with_mut)", t));
                 None
             }
+            SkipNextUnless { .. } => None,
             PanicIf { v } => {
                 if v < 0 || self.last == v as i64 {
                     panic!("injected failure t{}", self.t);
